@@ -159,7 +159,7 @@ def postfilter_family(rng, lib, via_lib):
     return ds, fonts, masters
 
 
-def overflow_family(rng, lib):
+def overflow_family(rng, lib, negative=False):
     """Light / sparse Medium layer / Bold.  D = A scaled by 2.25 (beyond F2Dot14 directly: fixed finding F19);
     C = B scaled 1.5 with B = A scaled 1.5 (2.25 only once flattenComponents has composed the two: fixed finding F21).
     The sparse layer holds C and D but neither B nor A."""
@@ -170,11 +170,12 @@ def overflow_family(rng, lib):
         A = {"name": "A", "unicodes": [0x41], "width": Fr(300 + d), "components": [], "anchors": [],
              "contours": [[(Fr(0), Fr(0), "line"), (Fr(100 + d), Fr(0), "line"), (Fr(100 + d), Fr(120 + j[0]), "line"), (Fr(0), Fr(120 + j[1]), "line")]]}
         B = {"name": "B", "unicodes": [], "width": Fr(450), "contours": [], "anchors": [],
-             "components": [("A", (Fr(3, 2), Fr(0), Fr(0), Fr(3, 2), Fr(10 + d), Fr(j[2])))]}
+             "components": [("A", (Fr(-3, 2), Fr(0), Fr(0), Fr(1), Fr(10 + d), Fr(j[2])) if negative else
+                                 (Fr(3, 2), Fr(0), Fr(0), Fr(3, 2), Fr(10 + d), Fr(j[2])))]}
         C = {"name": "C", "unicodes": [0x43], "width": Fr(700), "contours": [], "anchors": [],
-             "components": [("B", (Fr(3, 2), Fr(0), Fr(0), Fr(3, 2), Fr(5), Fr(d + j[3])))]}
+             "components": [("B", (Fr(3, 2), Fr(0), Fr(0), Fr(1) if negative else Fr(3, 2), Fr(5), Fr(d + j[3])))]}
         D = {"name": "D", "unicodes": [0x44], "width": Fr(700), "contours": [], "anchors": [],
-             "components": [("A", (Fr(9, 4), Fr(0), Fr(0), Fr(9, 4), Fr(d), Fr(0)))]}
+             "components": [("A", (Fr(1), Fr(0), Fr(0), Fr(-9, 4), Fr(d), Fr(0)) if negative else (Fr(9, 4), Fr(0), Fr(0), Fr(9, 4), Fr(d), Fr(0)))]}
         return {"glyphs": [A, B, C, D], "glyphOrder": ["A", "B", "C", "D"], "kerning": {}, "groups": {}, "lib": {},
                 "info": {"familyName": "Fam", "styleName": "Master%d" % k, "unitsPerEm": 1000, "ascender": 800, "descender": -200}}
     masters = [master(0), master(2)]
@@ -351,11 +352,12 @@ def explore(ctx):
     for i in range(ctx.budget(4, 12)):
         lib = ["ufoLib2", "defcon"][i % 2]
         flatten = i % 4 < 2
-        ds, fonts, masters = overflow_family(rng, lib)
+        negative = i % 2 == 1          # the composed scale is -2.25 (a mirrored inner component): overflow below -2, nothing above +2
+        ds, fonts, masters = overflow_family(rng, lib, negative)
         case = {"function": "compileInterpolatableTTFsFromDS", "options": {"flattenComponents": flatten}, "lib": lib,
                 "variant": "component scales beyond F2Dot14 (directly, and by flattening 1.5 x 1.5) + sparse layer without the bases",
                 "font": jsonable(masters[0]), "last_master": jsonable(masters[-1])}
-        ctx.count(); ctx.klass("TTFsFromDS/overflow+sparse/flatten=%s" % flatten); ctx.nontriv(("overflow", i, ctx.scale))
+        ctx.count(); ctx.klass("TTFsFromDS/overflow+sparse/flatten=%s/%s" % (flatten, "negative" if negative else "positive")); ctx.nontriv(("overflow", i, ctx.scale))
         try:
             out = [s.font for s in ufo2ft.compileInterpolatableTTFsFromDS(ds, flattenComponents=flatten).sources]
         except Exception as e:
